@@ -88,6 +88,56 @@ def terminates(stmts):
 class Fn:
     """translation of one function"""
 
+    # ---- mutation of objects (state mode): a statement that matches one of the binding's `mutations` rebinds a state variable
+    def mutation(self, s):
+        """(state variable, lean value, raises?) if the statement mutates a bound object, else None"""
+        rules = self.spec.get("mutations", {})
+        if isinstance(s, (ast.Assign, ast.AnnAssign)):
+            tgt = s.targets[0] if isinstance(s, ast.Assign) and len(s.targets) == 1 else getattr(s, "target", None)
+            if isinstance(tgt, ast.Subscript) and dotted(tgt.value) is not None and "%s[]=" % dotted(tgt.value) in rules:
+                var, t = rules["%s[]=" % dotted(tgt.value)]
+                return var, (lambda: t.replace("{key}", self.expr(tgt.slice)).replace("{value}", self.opt(s.value))), False
+            if isinstance(tgt, ast.Attribute) and dotted(tgt) is not None and "%s=" % dotted(tgt) in rules:
+                var, t = rules["%s=" % dotted(tgt)]
+                return var, (lambda: t.replace("{value}", self.expr(s.value)) if "{value}" in t else t), False
+        if isinstance(s, ast.Expr) and isinstance(s.value, ast.Call):
+            d = dotted(s.value.func)
+            if d is not None and "%s()" % d in rules:
+                var, t, raising = rules["%s()" % d]
+                return var, (lambda: t.replace("{0}", "py_v" if raising else self.expr(s.value.args[0]))), (self.expr(s.value.args[0]) if raising else False)
+        return None
+
+    def stores(self, stmts):
+        out = names_stored(stmts)
+        for n in stmts:
+            for x in ast.walk(n):
+                if isinstance(x, ast.stmt):
+                    m = self.mutation_target(x)
+                    if m and m not in out: out.append(m)
+                    if isinstance(x, ast.Break) and "py_done" not in out: out.append("py_done")
+        return out
+
+    def mutation_target(self, s):
+        rules = self.spec.get("mutations", {})
+        if isinstance(s, (ast.Assign, ast.AnnAssign)):
+            tgt = s.targets[0] if isinstance(s, ast.Assign) and len(s.targets) == 1 else getattr(s, "target", None)
+            if isinstance(tgt, ast.Subscript) and dotted(tgt.value) is not None and "%s[]=" % dotted(tgt.value) in rules:
+                return rules["%s[]=" % dotted(tgt.value)][0]
+            if isinstance(tgt, ast.Attribute) and dotted(tgt) is not None and "%s=" % dotted(tgt) in rules:
+                return rules["%s=" % dotted(tgt)][0]
+        if isinstance(s, ast.Expr) and isinstance(s.value, ast.Call):
+            d = dotted(s.value.func)
+            if d is not None and "%s()" % d in rules:
+                return rules["%s()" % d][0]
+        return None
+
+    def opt(self, e):
+        """an expression where the model holds an Optional[str]: None, an Optional variable, or a string"""
+        if isinstance(e, ast.Constant) and e.value is None: return "none"
+        if isinstance(e, ast.Name) and e.id in self.spec.get("optional_locals", ()): return self.ident(e.id)
+        if dotted(e) in self.spec.get("optional_exprs", {}): return self.spec["optional_exprs"][dotted(e)]
+        return "(some %s)" % self.expr(e)
+
     def __init__(self, spec, node, module_ast):
         self.spec, self.node, self.module = spec, node, module_ast
         self.names = dict(spec.get("names", {}))          # dotted python name -> lean term
@@ -97,6 +147,7 @@ class Fn:
         self.ret_mode = spec.get("ret_mode", "plain")     # plain | except | list (generator)
         self.raises = dict(spec.get("raises", {}))        # exception class name -> lean error term
         self.locals = set()
+        self.fold_vars = set()
         self.fresh = 0
 
     # ---------------------------------------------------------------- names
@@ -178,6 +229,11 @@ class Fn:
             return self.call(e)
         if isinstance(e, ast.Subscript):
             d = dotted(e.value)
+            if d and isinstance(e.slice, ast.Slice):
+                sl = "%s:%s" % (ast.unparse(e.slice.lower) if e.slice.lower else "", ast.unparse(e.slice.upper) if e.slice.upper else "")
+                if e.slice.step is None and "%s[%s]" % (d, sl) in self.calls:
+                    return self.calls["%s[%s]" % (d, sl)]
+                raise Unsupported("slice %s[%s]" % (d, sl))
             key = "%s[]" % d if d else None
             if key and key in self.calls:
                 return self.calls[key].replace("{0}", self.expr(e.slice))
@@ -297,7 +353,8 @@ class Fn:
                 c = "(%s ∈ %s)" % (self.expr(l), self.expr(r))
             return c if isinstance(op, ast.In) else "(¬ %s)" % c
         if isinstance(op, (ast.Is, ast.IsNot)) and isinstance(r, ast.Constant) and r.value is None:
-            raw = self.ident(l.id) if isinstance(l, ast.Name) and l.id in self.locals else self.expr(l)
+            raw = self.ident(l.id) if isinstance(l, ast.Name) and l.id in self.locals else \
+                (self.spec["optional_exprs"][dotted(l)] if dotted(l) in self.spec.get("optional_exprs", {}) else self.expr(l))
             c = "(%s = none)" % raw
             return c if isinstance(op, ast.Is) else "(¬ %s)" % c
         ops = {ast.Eq: "=", ast.NotEq: "≠", ast.Lt: "<", ast.LtE: "≤", ast.Gt: ">", ast.GtE: "≥"}
@@ -347,15 +404,37 @@ class Fn:
         if isinstance(s, ast.Continue):
             if in_loop == "yield": return "[]"
             if in_loop == "search": return "none"
+            if in_loop == "fold": return rest_value
             raise Unsupported("continue outside a loop")
+        if isinstance(s, ast.Break):
+            if in_loop == "fold": return "(let py_done := true\n %s)" % rest_value
+            raise Unsupported("break outside a state loop")
+        m = self.mutation(s)
+        if m is not None:
+            var, val, raising = m
+            self.locals.add(var)
+            if raising:
+                if self.ret_mode != "except": raise Unsupported("a raising call in a function bound as total")
+                return "(Except.bind %s (fun py_v =>\n (let %s := %s\n %s)))" % (raising, var, val(), self.block(rest, rest_value, in_loop))
+            return "(let %s := %s\n %s)" % (var, val(), self.block(rest, rest_value, in_loop))
+        if isinstance(s, (ast.Assign, ast.AnnAssign)) and isinstance(getattr(s, "value", None), ast.Call) and dotted(s.value.func) == "next" \
+                and len(s.value.args) == 1 and isinstance(s.value.args[0], ast.Name) and s.value.args[0].id in self.locals:
+            # x = next(it): the iterator is a list in the model; an exhausted one raises StopIteration
+            tgt = s.targets[0] if isinstance(s, ast.Assign) else s.target
+            if not isinstance(tgt, ast.Name) or self.ret_mode != "except" or "StopIteration" not in self.raises: raise Unsupported("next()")
+            it = self.ident(s.value.args[0].id)
+            self.locals.add(tgt.id)
+            return "(match %s with\n | [] => (Except.error %s)\n | %s :: %s =>\n %s)" % (it, self.raises["StopIteration"], self.ident(tgt.id), it,
+                                                                                  self.block(rest, rest_value, in_loop))
         if isinstance(s, (ast.Assign, ast.AnnAssign)):
             tgt = s.targets[0] if isinstance(s, ast.Assign) else s.target
             if isinstance(s, ast.Assign) and len(s.targets) != 1: raise Unsupported("chained assignment")
             if s.value is None: return self.block(rest, rest_value, in_loop)
             if isinstance(tgt, ast.Name):
-                v = self.expr(s.value)
+                v = self.opt(s.value) if tgt.id in self.spec.get("optional_locals", ()) else self.expr(s.value)
                 self.locals.add(tgt.id)
-                return "(let %s := %s\n %s)" % (self.ident(tgt.id), v, self.block(rest, rest_value, in_loop))
+                ty = self.spec.get("local_types", {}).get(tgt.id)
+                return "(let %s%s := %s\n %s)" % (self.ident(tgt.id), " : " + ty if ty else "", v, self.block(rest, rest_value, in_loop))
             if isinstance(tgt, ast.Tuple) and all(isinstance(x, ast.Name) for x in tgt.elts):
                 v = self.expr(s.value)
                 for x in tgt.elts: self.locals.add(x.id)
@@ -372,7 +451,7 @@ class Fn:
             c = self.cond(s.test)
             tb, te = terminates(s.body), terminates(s.orelse) if s.orelse else False
             live_after = names_loaded(rest)
-            joined = [v for v in names_stored(s.body + s.orelse) if v in live_after]
+            joined = [v for v in self.stores(s.body + s.orelse) if v in live_after or (in_loop == "fold" and v in self.fold_vars)]
             if in_loop == "yield" or tb or te or not rest or not joined:
                 # no join point needed: the rest is placed behind the branch(es) that fall through
                 saved = set(self.locals)
@@ -405,6 +484,25 @@ class Fn:
                 self.locals = saved
                 after = self.block(rest, "[]", in_loop) if rest else "[]"
                 return "((%s).flatMap (fun %s =>\n %s) ++ %s)" % (it, pat, body, after)
+            carried = [v for v in self.stores(s.body) if v in saved or v == "py_done"]
+            if carried and self.ret_mode in ("except", "plain") and self.spec.get("mutations") is not None:
+                # a loop that updates state: a fold over the iterated list; the state is the tuple of variables that exist before
+                # the loop and are assigned in its body (plus the `break` flag)
+                has_break = "py_done" in carried
+                tup = self.ident(carried[0]) if len(carried) == 1 else "(" + ", ".join(self.ident(v) for v in carried) + ")"
+                okt = "(Except.ok %s)" % tup if self.ret_mode == "except" else tup
+                self.fold_vars = set(carried)
+                if has_break: self.locals.add("py_done")
+                body = self.block(s.body, okt, "fold")
+                if has_break: body = "(if py_done = true then %s else\n %s)" % (okt, body)
+                self.locals = saved | set(carried) - {"py_done"}
+                leak = (set(self.stores(s.body)) - set(carried)) & names_loaded(rest)
+                if leak: raise Unsupported("variable %s first assigned in a loop and used after it" % sorted(leak)[0])
+                after = self.block(rest, rest_value, in_loop)
+                init = tup.replace("py_done", "false") if has_break else tup
+                if self.ret_mode == "except":
+                    return "(Except.bind ((%s).foldlM (fun %s %s =>\n %s) %s) (fun %s =>\n %s))" % (it, tup, pat, body, init, tup, after)
+                return "(let %s := (%s).foldl (fun %s %s =>\n %s) %s\n %s)" % (tup, it, tup, pat, body, init, after)
             # a loop that only searches: no assignment in its body may be visible afterwards
             if set(names_stored(s.body)) & names_loaded(rest):
                 raise Unsupported("loop that accumulates into a variable used later")
@@ -468,7 +566,7 @@ class Fn:
     def _branch(self, stmts, assigned, tup, saved, in_loop):
         self.locals = set(saved)
         for v in assigned:
-            if v not in names_stored(stmts) and v not in saved:
+            if v not in self.stores(stmts) and v not in saved:
                 raise Unsupported("variable %s is defined on one path only" % v)
         return self.block(stmts, tup, in_loop)
 
@@ -484,9 +582,10 @@ class Fn:
         if [p for p in have if p not in drop] != want:
             raise Unsupported("parameter list is %s, binding expects %s" % (have, want))
         for p in want: self.locals.add(p)
+        for p, _ in self.spec.get("state_params", []): self.locals.add(p)
         # defaults of keyword parameters are part of the function: record them for callers (e.g. group_notes' options)
         body = self.block(list(self.node.body), "[]" if self.ret_mode == "list" else self.spec.get("fallthrough"))
-        sig = " ".join("(%s : %s)" % (self.ident(p), t) for p, t in self.spec["params"])
+        sig = " ".join("(%s : %s)" % (self.ident(p), t) for p, t in self.spec.get("state_params", []) + self.spec["params"])
         return "def %s %s : %s :=\n %s" % (self.spec["lean"], sig, self.spec["ret"], body)
 
 
